@@ -347,6 +347,13 @@ func (x *Exprer) compute(v ssa.Value) *Expr {
 		}
 		args := sortedExprs(seen)
 		if loop {
+			// the counter of a loop nested in another loop is named with its bound, so that two inner loops over
+			// different lists of the same outer element (Chains[i] / Addresses[j]) are different counters
+			if b := x.loopBound(v); b != nil {
+				if bs := b.String(); strings.Contains(bs, "μ{") {
+					args = append(args, mk("lin", "<"+bs, nil))
+				}
+			}
 			return mk("phi", "μ", v, args...)
 		}
 		if len(args) == 1 {
@@ -893,8 +900,9 @@ func lenNorm(e *Expr) *Expr {
 
 func canonBin(op token.Token, a, b *Expr, v ssa.Value) *Expr {
 	// the index of a `for i := range xs` loop is built as phi(-1, i)+1; it is the same counter as `for i := 0; …; i++`
-	if op == token.ADD && a.Op == "phi" && a.Name == "μ" && len(a.Args) == 1 && a.Args[0].Op == "const" && a.Args[0].Name == "-1" && b.Op == "const" && b.Name == "1" {
-		return mk("phi", "μ", v, mk("const", "0", nil))
+	if op == token.ADD && a.Op == "phi" && a.Name == "μ" && len(a.Args) >= 1 && len(a.Args) <= 2 && a.Args[0].Op == "const" && a.Args[0].Name == "-1" && b.Op == "const" && b.Name == "1" &&
+		(len(a.Args) == 1 || a.Args[1].Op == "lin") {
+		return mk("phi", "μ", v, append([]*Expr{mk("const", "0", nil)}, a.Args[1:]...)...)
 	}
 	return lenNorm(canonBin0(op, a, b, v))
 }
@@ -1411,4 +1419,42 @@ func (p *Program) nilGuardedGetter(fn *ssa.Function) (string, bool) {
 	}
 	field = st.Field(fa.Field).Name()
 	return field, true
+}
+
+// loopBound finds the bound the loop counter is tested against in its header (`i < len(xs)` / `i+1 < len(xs)`).
+func (x *Exprer) loopBound(ph *ssa.Phi) *Expr {
+	for _, ins := range ph.Block().Instrs {
+		bo, ok := ins.(*ssa.BinOp)
+		if !ok || bo.Op != token.LSS {
+			continue
+		}
+		base := bo.X
+		if add, isAdd := base.(*ssa.BinOp); isAdd && add.Op == token.ADD {
+			base = add.X
+		}
+		if base != ssa.Value(ph) {
+			continue
+		}
+		if x.busy[bo.Y] {
+			return nil
+		}
+		return x.E(bo.Y)
+	}
+	// range loops test in the header block of the body: look one block ahead
+	for _, s := range ph.Block().Succs {
+		for _, ins := range s.Instrs {
+			bo, ok := ins.(*ssa.BinOp)
+			if !ok || bo.Op != token.LSS {
+				continue
+			}
+			base := bo.X
+			if add, isAdd := base.(*ssa.BinOp); isAdd && add.Op == token.ADD {
+				base = add.X
+			}
+			if base == ssa.Value(ph) && !x.busy[bo.Y] {
+				return x.E(bo.Y)
+			}
+		}
+	}
+	return nil
 }
